@@ -1,2 +1,6 @@
 import WrglModel.Props.C09
-#print axioms Wrgl.C09_placeholder
+#print axioms Wrgl.C09_selection_closed
+#print axioms Wrgl.C09_list_acceptable
+#print axioms Wrgl.C09_transfer_closed
+#print axioms Wrgl.C09_any_packfile_size
+#print axioms Wrgl.C09_repeat_lists_nothing
